@@ -154,7 +154,12 @@ func (b *tcpBackend) serve() {
 				if n > 0 {
 					b.mu.Lock()
 					b.got[idx] = append(b.got[idx], buf[:n]...)
+					late := bytes.HasPrefix(b.got[idx], []byte("late-"))
 					b.mu.Unlock()
+					if late {
+						// a backend that answers only a while after it has the request
+						time.Sleep(60 * time.Millisecond)
+					}
 					c.Write(xform(buf[:n]))
 				}
 				if err != nil {
@@ -382,6 +387,9 @@ func scenarios(tier string, seed int64) []scenario {
 	for i := 0; i < nc; i++ {
 		r := core.NewRng(seed, "C15/scn2", i)
 		out = append(out, scenario{Kind: "copy-tcp", Sub: i, Clients: r.PickI([]int{1, 1, 2, 3}), Cut: -1})
+		if i%3 == 0 {
+			out = append(out, scenario{Kind: "copy-tcp", Sub: i, Mode: "half-close", Clients: r.PickI([]int{1, 2}), Cut: -1})
+		}
 		out = append(out, scenario{Kind: "copy-udp", Sub: i, Clients: 1, Cut: -1})
 		out = append(out, scenario{Kind: "dns", Sub: i, Clients: 1, Cut: -1})
 	}
@@ -683,6 +691,14 @@ func (e *env) runCopyTCP(sc scenario, ob *obs) {
 	for ci := 0; ci < sc.Clients; ci++ {
 		r := core.NewRng(e.seed, "C15/copy", sc.Sub*10+ci)
 		data := append([]byte(fmt.Sprintf("conn-%d-%d|", sc.Sub, ci)), r.Bytes(r.PickI([]int{0, 1, 100, 5000, 65536}))...)
+		halfClose := sc.Mode == "half-close"
+		if halfClose {
+			// the client finishes sending (half-close) before the backend has answered
+			data = append([]byte("late-"), data...)
+			if len(data) > 20000 {
+				data = data[:20000] // one backend read: one delayed answer
+			}
+		}
 		sent = append(sent, data)
 		wg.Add(1)
 		go func(ci int, data []byte) {
@@ -692,12 +708,19 @@ func (e *env) runCopyTCP(sc scenario, ob *obs) {
 			cl := lab.NewClient(cc)
 			defer cl.Close()
 			cl.SendCuts(data, gen.Cuts(core.NewRng(e.seed, "C15/copycuts", sc.Sub*10+ci), len(data), 2), 3*time.Second)
+			if halfClose {
+				cc.CloseWrite()
+			}
 			ok := cl.WaitFor(func(b []byte) bool { return len(b) >= len(data) }, 4*time.Second)
 			got := cl.Received()
 			omu.Lock()
 			defer omu.Unlock()
 			if !ok || !bytes.Equal(got, xform(data)) {
-				ob.bad("copy-tcp|reply", "client %d sent %d bytes; %d came back, equal to the backend's answer: %v", ci, len(data), len(got), bytes.Equal(got, xform(data)))
+				rule := "copy-tcp|reply"
+				if halfClose {
+					rule = "copy-tcp|reply-after-client-half-close"
+				}
+				ob.bad(rule, "client %d sent %d bytes; %d came back, equal to the backend's answer: %v", ci, len(data), len(got), bytes.Equal(got, xform(data)))
 			}
 		}(ci, data)
 	}
